@@ -428,3 +428,31 @@ def _():
         ok = ok and i_img * i_img == m.FQ12([-1] + [0] * 11)
         ok = ok and (m.FQ2([0, 1]) * m.FQ2([0, 1]) == m.FQ2([-1, 0]))
     return ok, "iota(i)^2 = -1 with iota(i) = w^6 - c (c = 9 for alt_bn128, 1 for BLS12-381): iota is a field embedding F_p2 -> F_p12"
+
+
+@evaluator("codec.eighth-roots")
+def _():
+    bc = M("py_ecc.bls.constants")
+    F2 = bc.FQ2
+    q = P_BLS
+    rt = bc.EIGHTH_ROOTS_OF_UNITY
+    one = F2.one()
+    ok = len(rt) == 8 and (q * q - 1) % 16 == 8 and bc.FQ2_ORDER == q * q - 1
+    g = F2([1, 1])
+    ok = ok and all(rt[k] == g ** ((q * q - 1) * k // 8) for k in (0, 1, 2, 5))
+    ok = ok and rt[0] == one and rt[4] == -one and all(rt[k] ** 8 == one for k in range(8))
+    ok = ok and all(not (rt[i] == rt[j]) for i in range(8) for j in range(i + 1, 8))          # a primitive 8th root generates them
+    ok = ok and all(rt[k] * rt[k] == rt[(2 * k) % 8] for k in range(8))
+    ok = ok and (q * q + 7) % 16 == 0 and (bc.FQ2_ORDER + 8) // 16 == (q * q + 7) // 16
+    return ok, "EIGHTH_ROOTS_OF_UNITY[k] = (1+i)^((q^2-1)k/8): all 8 distinct, zeta^4 = -1, roots[k]^2 = roots[2k]; q^2 = 9 mod 16; exponent (q^2+7)/16"
+
+
+@evaluator("h2c.cofactor-kills-twist-cofactor")
+def _():
+    c = M("py_ecc.optimized_bls12_381.constants")
+    x = X_BLS
+    # #E'(F_p2) = h2 r (A-ORDER): h_eff_G2 = h2 (3x^2 - 3), so r . (h_eff . X) = (3x^2 - 3) . ((h2 r) . X) = O
+    ok = c.H_EFF_G2 * R_BLS == (3 * x * x - 3) * (H2_BLS * R_BLS)
+    # G1: h_eff = 1 - x and h1 = (x - 1)^2 / 3: (1 - x)^2 = 3 h1, i.e. h_eff^2 kills the cofactor part; that h_eff alone does is A-STRUCT-G1
+    ok = ok and c.H_EFF_G1 ** 2 == 3 * H1_BLS and c.H_EFF_G1 == 1 - x
+    return ok, "r * H_EFF_G2 = (3x^2-3) * #E'(F_p2);  H_EFF_G1^2 = 3 h1"
